@@ -50,8 +50,13 @@ def Cfg.name (c : Cfg) : String :=
   if parts.isEmpty then "default" else "-".intercalate parts
 
 inductive Exc where
-  | IndexOutOfBoundsError | KeyError | ValueError | TypeError | ClassError | ResourceError
+  | IndexOutOfBoundsError | KeyError | ValueError | TypeError | ClassError | ResourceError | OutOfMemoryError | FormatError
 deriving DecidableEq, Repr, Inhabited
+
+def Exc.ofName : String → Option Exc
+  | "IndexOutOfBoundsError" => some .IndexOutOfBoundsError | "KeyError" => some .KeyError | "ValueError" => some .ValueError
+  | "TypeError" => some .TypeError | "ClassError" => some .ClassError | "ResourceError" => some .ResourceError
+  | "OutOfMemoryError" => some .OutOfMemoryError | "FormatError" => some .FormatError | _ => none
 
 inductive Outcome (α : Type) where
   | ok (a : α)
@@ -91,6 +96,65 @@ def cacheNum (cfg : Cfg) : Nat := if cfg.cache then CelloGen.Cfg.cacheNumOn else
 inductive AllocClass where
   | static | stack | heap | data
 deriving DecidableEq, Repr, Inhabited
+
+def AllocClass.cname : AllocClass → String
+  | .static => "AllocStatic" | .stack => "AllocStack" | .heap => "AllocHeap" | .data => "AllocData"
+
+def AllocClass.all : List AllocClass := [.static, .stack, .heap, .data]
+
+def AllocClass.ofName (n : String) : Option AllocClass := AllocClass.all.find? (fun c => c.cname == n)
+
+/-- the word `header_init` stores for a class: the value of the enumerator in Cello.h (generated) -/
+def enumVal (n : String) : Option Nat := CelloGen.Cfg.allocEnum.lookup n
+
+/-- the class that the `k`-th `header_init` call of function (or macro) `fn` stamps on the header it initialises
+    (generated table `stamps`: alloc_by, Type_Alloc, Array_Alloc, List_Alloc, Table_Set_Move, Tree_Alloc, alloc_stack, CelloObject) -/
+def stampOf (fn : String) (k : Nat := 0) : AllocClass :=
+  match ((CelloGen.Cfg.stamps.lookup fn).bind (fun cs => cs[k]?)).bind AllocClass.ofName with
+  | some c => c
+  | none => .static       -- no such site: the generator raises ExtractError before this can be reached
+
+/-- the class of everything `new` / `new_raw` / `new_root` / `copy` hand out (`alloc_by`) -/
+def heapClass : AllocClass := stampOf "alloc_by"
+
+/-- value of a guard condition (generated `GExpr`) on an object whose header holds class `a`; conditions that do not speak
+    about the object (`other`) are not this function's business -/
+def evalG (selfNull : Bool) (a : AllocClass) : CelloGen.Cfg.GExpr → Bool
+  | .allocIs n => enumVal n == enumVal a.cname
+  | .allocIsnt n => !(enumVal n == enumVal a.cname)
+  | .selfNull => selfNull
+  | .or x y => evalG selfNull a x || evalG selfNull a y
+  | .and x y => evalG selfNull a x && evalG selfNull a y
+  | .not x => !(evalG selfNull a x)
+  | .other _ => false
+
+/-- does a condition speak about the object's header only -/
+def GExpr.headerOnly : CelloGen.Cfg.GExpr → Bool
+  | .allocIs _ | .allocIsnt _ | .selfNull => true
+  | .or x y | .and x y => GExpr.headerOnly x && GExpr.headerOnly y
+  | .not x => GExpr.headerOnly x
+  | .other _ => false
+
+/-- the `CELLO_ALLOC_CHECK` guards of function `fn`, in source order (generated from src/*.c on every run) -/
+def allocGuardsOf (fn : String) : List CelloGen.Cfg.Guard :=
+  CelloGen.Cfg.guards.filter (fun g => g.func == fn && g.guardMacro == "CELLO_ALLOC_CHECK")
+
+/-- the first `CELLO_ALLOC_CHECK` guard of `fn` that fires on a (non-NULL) object of class `a`: the exception it throws -/
+def allocGuardFires (fn : String) (a : AllocClass) : Option Exc :=
+  ((allocGuardsOf fn).find? (fun g => evalG false a g.cond)).map (fun g => (Exc.ofName g.exc).getD .ValueError)
+
+/-- **Where an in-place operation is defined.**  The functions that `realloc`/`free` the buffer an object points to (String_*,
+    Tuple_*) need that buffer to be a malloc block: true of objects made by `alloc_by` + constructor and of elements a container
+    built in its own storage (`header_init` + assign in Array_Alloc, List_Alloc, Table_Set_Move, Tree_Alloc), false of `$(…)`
+    stack objects (they point at the caller's memory) and of static objects.  `dealloc` frees the block of the object itself:
+    only what `alloc_by` made. -/
+def reallocClasses : List AllocClass :=
+  [stampOf "alloc_by", stampOf "Array_Alloc", stampOf "List_Alloc", stampOf "Table_Set_Move" 0, stampOf "Table_Set_Move" 1,
+   stampOf "Tree_Alloc" 0, stampOf "Tree_Alloc" 1]
+
+def deallocClasses : List AllocClass := [stampOf "alloc_by"]
+
+def inContractClasses (fn : String) : List AllocClass := if fn = "dealloc" then deallocClasses else reallocClasses
 
 /-- one machine word of an object block -/
 inductive Word where
@@ -195,6 +259,7 @@ structure St where
   reg : List Nat                       -- the collector's registry (only maintained when cfg.gc)
   mitems : Nat                         -- collection threshold (`gc->mitems`)
   memo : List ((String × Nat) × String) -- filled method-cache slots: (type, slot index) ↦ instance
+  roots : List Nat := []               -- registry entries made by `new_root` (root flag set: never swept)
 deriving Repr, Inhabited
 
 def St.init : St := { next := 0, heap := [], live := [], reg := [], mitems := 0, memo := [] }
@@ -276,7 +341,7 @@ def dispatchAll (cfg : Cfg) : St → List (Nat × String) → St × Outcome Unit
 
 /-- mark (from the program's variables) and sweep: unmarked registered blocks are freed -/
 def collect (s : St) : St :=
-  let marked := s.live.map (·.2)
+  let marked := s.live.map (·.2) ++ s.roots
   let keep := s.reg.filter (fun i => marked.contains i)
   { s with heap := s.heap.filter (fun o => !(s.reg.contains o.id) || marked.contains o.id),
            reg := keep, mitems := keep.length + keep.length / 2 + 1 }
@@ -289,7 +354,8 @@ def gcSet (s : St) (i : Nat) : St :=
 /-- free a block (`GC_Rem` → destruct + dealloc, or `dealloc(destruct(self))` directly) -/
 def freeObj (cfg : Cfg) (s : St) (i : Nat) : St :=
   { s with heap := s.heap.filter (fun o => !(o.id == i)),
-           reg := if cfg.gc then s.reg.filter (fun j => !(j == i)) else s.reg }
+           reg := if cfg.gc then s.reg.filter (fun j => !(j == i)) else s.reg,
+           roots := if cfg.gc then s.roots.filter (fun j => !(j == i)) else s.roots }
 
 /-! ### operations -/
 
@@ -307,19 +373,36 @@ inductive Out where
   | silent                       -- transcript-only operation: nothing the model computes
 deriving DecidableEq, Repr, Inhabited
 
+/-- which object a guarded function runs on -/
+inductive Where where
+  | self                                  -- the object behind the handle: the class is read from its header
+  | elem (fn : String) (k : Nat)          -- an element embedded in it: the class the `k`-th `header_init` of `fn` stamped
+deriving DecidableEq, Repr, Inhabited
+
+/-- how `alloc_by` was asked to register the block: `new` / `new_raw` / `new_root` -/
+inductive AMode where
+  | standard | raw | root
+deriving DecidableEq, Repr, Inhabited
+
 /-- one method call on a receiver -/
 structure Call where
   self : Nat
   cls : String
   uses : List (Nat × String)
-  guard : Body → Option Exc       -- tests inside `#if CELLO_*_CHECK == 1`
+  guard : Body → Option Exc       -- tests inside `#if CELLO_*_CHECK == 1` that do not depend on the header (bounds, element type …)
+  /-- lookups `(type, class)` performed on elements embedded in the receiver (`type_of` + `Type_Instance` + method check on
+      what `get` / iteration returned): e.g. `concat(get(a, i), x)` looks up `Concat` on the element type -/
+  inner : Body → List (String × String) := fun _ => []
+  /-- the functions with `CELLO_ALLOC_CHECK` guards that the call runs, each with the object it runs on: the generated
+      guards of these functions are evaluated on that object's header class -/
+  sites : Body → List (String × Where) := fun _ => []
   hard : Body → Option Exc        -- error paths compiled in every configuration
   undef : Body → Bool             -- outside the contract with no test anywhere (or outside the workload's bounds)
   apply : Body → Body × Out
 
 inductive Plan where
   | call (c : Call)
-  | alloc (d : Nat) (ty : String) (b : Body) (uses : List (Nat × String))
+  | alloc (d : Nat) (ty : String) (b : Body) (uses : List (Nat × String)) (mode : AMode)
   | del (x : Nat)
   | drop (x : Nat)
   | collect
@@ -396,6 +479,91 @@ def pushAtPos (k : SeqKind) (len : Nat) (i : Int) : Option Nat :=
              let j := normIdx len i
              if j < 0 || j ≥ (len : Int) then none else some j.toNat
 
+/-- which object an in-place edit is applied to -/
+inductive Sel where
+  | self                 -- the object behind the handle itself (made by new / new_raw / new_root / copy)
+  | at (i : Int)         -- `get(c, $I(i))` of an Array / List: an element embedded in the container
+  | it (i : Int)         -- the `i`-th object handed out by iteration over an Array / List (the same embedded element)
+  | val (k : Val)        -- `get(m, k)` of a Table / Tree: the embedded value
+  | key (k : Val)        -- the embedded key equal to `k`, as iteration over a Table / Tree hands it out
+deriving DecidableEq, Repr, Inhabited
+
+/-- an in-place edit of a String (or, for `asg`, Int) object -/
+inductive Edit where
+  | cat (t : String)             -- concat(x, $S(t))
+  | app (t : String)             -- append(x, $S(t))
+  | res (n : Int)                -- resize(x, n)
+  | asg (v : Val)                -- assign(x, v)
+  | fmt (p : Int) (t : String)   -- print_to(x, p, "%s", $S(t))
+  | rem (t : String)             -- rem(x, $S(t))
+  | look (t : String)            -- look_from(x, $S("\"t\""), 0): String_Look = String_Clear, then one String_Concat per character
+deriving DecidableEq, Repr, Inhabited
+
+/-- bound the workload keeps on String values (harness buffers) -/
+def strCap : Nat := 30
+
+/-- the class through which the edit is dispatched on its target -/
+def Edit.cls : Edit → String
+  | .cat _ | .app _ => "Concat"
+  | .res _ => "Resize"
+  | .asg _ => "Assign"
+  | .fmt _ _ => "Format"
+  | .rem _ => "Get"
+  | .look _ => "Show"
+
+/-- the functions the edit runs on a target of type `ty`, in order (those that carry `CELLO_ALLOC_CHECK` guards matter) -/
+def Edit.fns (ty : String) : Edit → List String
+  | .cat _ | .app _ => [ty ++ "_Concat"]
+  | .res _ => [ty ++ "_Resize"]
+  | .asg _ => [ty ++ "_Assign"]
+  | .fmt _ _ => [ty ++ "_Format_To"]
+  | .rem _ => [ty ++ "_Rem"]
+  | .look t => (ty ++ "_Clear") :: (if t.isEmpty then [] else [ty ++ "_Concat"])
+
+def dropPrefix? : List Char → List Char → Option (List Char)
+  | s, [] => some s
+  | [], _ :: _ => none
+  | c :: s, d :: t => if c = d then dropPrefix? s t else none
+
+/-- `String_Rem`: the text without the first occurrence of `t` (`none`: `t` does not occur) -/
+def remSub : List Char → List Char → Option (List Char)
+  | s, t =>
+    match dropPrefix? s t with
+    | some r => some r
+    | none =>
+      match s with
+      | [] => none
+      | c :: s' => (remSub s' t).map (c :: ·)
+
+/-- is the edit applicable to this value at all (otherwise the method lookup or the argument conversion raises) -/
+def Edit.typeOk : Edit → Val → Bool
+  | .asg w, v => w.ty == v.ty
+  | _, .str _ => true
+  | _, .int _ => false
+
+/-- outside the contract without any test: sizes beyond the workload's buffers, a print position beyond the text -/
+def Edit.undef : Edit → Val → Bool
+  | .cat t, .str s | .app t, .str s => decide (s.length + t.length > strCap)
+  | .res n, .str _ => decide (n < 0) || decide (n > (strCap : Int))
+  | .fmt p t, .str s => decide (p < 0) || decide (p > (s.length : Int)) || decide (p.toNat + t.length > strCap)
+  | .look t, .str _ => decide (t.length > strCap)
+  | _, _ => false
+
+/-- error paths compiled in every configuration: `String_Rem` of a text that does not occur -/
+def Edit.hard : Edit → Val → Option Exc
+  | .rem t, .str s => if (remSub s.toList t.toList).isSome then none else some .ValueError
+  | _, _ => none
+
+/-- the value after the edit -/
+def Edit.run : Edit → Val → Val
+  | .cat t, .str s | .app t, .str s => .str (s ++ t)
+  | .res n, .str s => .str (if n.toNat ≤ s.length then String.ofList (s.toList.take n.toNat) else s)    -- growing adds NUL bytes only
+  | .asg w, _ => w
+  | .fmt p t, .str s => .str (String.ofList (s.toList.take p.toNat) ++ t)
+  | .rem t, .str s => .str (String.ofList ((remSub s.toList t.toList).getD s.toList))
+  | .look t, .str _ => .str t
+  | _, v => v
+
 inductive Op where
   | nv (d : Nat) (v : Val)
   | nseq (k : SeqKind) (d : Nat) (ty : Ty) (vs : List Val)
@@ -424,6 +592,8 @@ inductive Op where
   | eq (a b : Nat)
   | cmp (a b : Nat)
   | vset (x : Nat) (v : Val)
+  | nvm (mode : AMode) (d : Nat) (v : Val)     -- new_raw / new_root of a value object
+  | ed (c : Nat) (sel : Sel) (e : Edit)        -- an in-place edit of the object itself or of an element embedded in it
   | exc (k : Int)
   | nest (k1 k2 : Int)
   -- transcript-only operations: the model decides only whether they are inside the contract
@@ -454,40 +624,84 @@ def seqLen : Body → Nat
   | .seq _ _ xs => xs.length
   | _ => 0
 
-/-- bound the workload keeps on String values (harness buffers) -/
-def strCap : Nat := 30
+def seqFn : SeqKind → String
+  | .array => "Array_Alloc"
+  | .list => "List_Alloc"
+
+def mapFn : MapKind → String
+  | .table => "Table_Set_Move"
+  | .tree => "Tree_Alloc"
+
+/-- the per-element functions a container operation runs on the elements embedded in it (`suffix` = "_Assign" when elements
+    are constructed or overwritten, "_Del" when they are destructed), with where those elements live -/
+def elemSites (suffix : String) : Body → List (String × Where)
+  | .seq k ty _ => [(ty.name ++ suffix, .elem (seqFn k) 0)]
+  | .map k kt vt _ => [(kt.name ++ suffix, .elem (mapFn k) 0), (vt.name ++ suffix, .elem (mapFn k) 1)]
+  | .val _ => []
+
+/-- an in-place edit, decoded: the element it reaches (`none`: not there), and the body with that element replaced -/
+def selTarget (sel : Sel) (b : Body) : Option Val :=
+  match sel, b with
+  | .self, .val v => some v
+  | .at i, .seq _ _ xs => if idxBad xs.length i then none else xs[(normIdx xs.length i).toNat]?
+  | .it i, .seq _ _ xs => if i < 0 then none else xs[i.toNat]?
+  | .val k, .map _ _ _ kvs => kvGet k kvs
+  | .key k, .map _ _ _ kvs => if (kvGet k kvs).isSome then some k else none
+  | _, _ => none
+
+def selPut (sel : Sel) (b : Body) (w : Val) : Body :=
+  match sel, b with
+  | .self, .val _ => .val w
+  | .at i, .seq k ty xs => .seq k ty (setAt xs (normIdx xs.length i).toNat w)
+  | .it i, .seq k ty xs => .seq k ty (setAt xs i.toNat w)
+  | .val k, .map mk kt vt kvs => .map mk kt vt (kvSet k w kvs)
+  | .key k, .map mk kt vt kvs => .map mk kt vt (kvs.map (fun p => if p.1 = k then (w, p.2) else p))
+  | _, b => b
+
+/-- where the target of an edit lives -/
+def selWhere (sel : Sel) (b : Body) : Where :=
+  match sel, b with
+  | .at _, .seq k _ _ | .it _, .seq k _ _ => .elem (seqFn k) 0
+  | .key _, .map k _ _ _ => .elem (mapFn k) 0
+  | .val _, .map k _ _ _ => .elem (mapFn k) 1
+  | _, _ => .self
 
 /-- Decode an operation against the observable contents of the live handles: which call it is, with which guard,
     error paths and effect.  Does not look at the configuration, the headers, the cache or the registry. -/
 def plan (op : Op) (v : List (Nat × Option Body)) : Plan :=
   match op with
-  | .nv d x => if viewLive v d then .undefined else .alloc d x.ty.name (.val x) []
+  | .nv d x => if viewLive v d then .undefined else .alloc d x.ty.name (.val x) [] .standard
+  | .nvm mode d x => if viewLive v d then .undefined else .alloc d x.ty.name (.val x) [] mode
   | .nseq k d ty vs =>
     if viewLive v d then .undefined
-    else if vs.all (fun x => x.ty = ty) then .alloc d (Body.seq k ty []).typeName (.seq k ty vs) []
+    else if vs.all (fun x => x.ty = ty) then .alloc d (Body.seq k ty []).typeName (.seq k ty vs) [] .standard
     else .refuse .ClassError
-  | .nmap k d kt vt => if viewLive v d then .undefined else .alloc d (Body.map k kt vt []).typeName (.map k kt vt []) []
+  | .nmap k d kt vt => if viewLive v d then .undefined else .alloc d (Body.map k kt vt []).typeName (.map k kt vt []) [] .standard
   | .del x => .del x
   | .drop x => if viewLive v x then .drop x else .undefined
   | .push c x => .call {
       self := c, cls := "Push", uses := [],
       guard := seqGuard (fun _ ty _ => if x.ty = ty then none else some .ClassError), hard := noGuard, undef := noUndef,
+      sites := elemSites "_Assign",
       apply := onSeq (fun xs => (xs ++ [x], .unit)) }
   | .pushat c i x => .call {
       self := c, cls := "Push", uses := [],
       guard := seqGuard (fun k ty xs => if x.ty ≠ ty then some .ClassError
                                         else if (pushAtPos k xs.length i).isNone then some .IndexOutOfBoundsError else none),
       hard := noGuard, undef := noUndef,
+      sites := elemSites "_Assign",
       apply := fun b => match b with
         | .seq k ty xs => (.seq k ty (insertAt xs ((pushAtPos k xs.length i).getD 0) x), .unit)
         | b => (b, .unit) }
   | .pop c => .call {
       self := c, cls := "Push", uses := [],
       guard := seqGuard (fun _ _ xs => if xs.isEmpty then some .IndexOutOfBoundsError else none), hard := noGuard, undef := noUndef,
+      sites := elemSites "_Del",
       apply := onSeq (fun xs => (xs.dropLast, .unit)) }
   | .popat c i => .call {
       self := c, cls := "Push", uses := [],
       guard := seqGuard (fun _ _ xs => if idxBad xs.length i then some .IndexOutOfBoundsError else none), hard := noGuard, undef := noUndef,
+      sites := elemSites "_Del",
       apply := onSeq (fun xs => (removeAt xs (normIdx xs.length i).toNat, .unit)) }
   | .get c i => .call {
       self := c, cls := "Get", uses := [],
@@ -498,6 +712,7 @@ def plan (op : Op) (v : List (Nat × Option Body)) : Plan :=
       guard := seqGuard (fun _ ty xs => if x.ty ≠ ty then some .ClassError
                                         else if idxBad xs.length i then some .IndexOutOfBoundsError else none),
       hard := noGuard, undef := noUndef,
+      sites := elemSites "_Assign",
       apply := onSeq (fun xs => (setAt xs (normIdx xs.length i).toNat x, .unit)) }
   | .rem c x => .call {
       self := c, cls := "Get", uses := [],
@@ -506,6 +721,7 @@ def plan (op : Op) (v : List (Nat × Option Body)) : Plan :=
         | .seq _ _ xs => if xs.contains x then none else some .ValueError
         | _ => none,
       undef := noUndef,
+      sites := elemSites "_Del",
       apply := onSeq (fun xs => (removeFirst x xs, .unit)) }
   | .mem c x => .call {
       self := c, cls := "Get", uses := [],
@@ -521,6 +737,7 @@ def plan (op : Op) (v : List (Nat × Option Body)) : Plan :=
   | .mset m k x => .call {
       self := m, cls := "Get", uses := [],
       guard := mapGuard (fun kt vt _ => if k.ty = kt && x.ty = vt then none else some .ClassError), hard := noGuard, undef := noUndef,
+      sites := elemSites "_Assign",
       apply := onMap (fun kvs => (kvSet k x kvs, .unit)) }
   | .mget m k => .call {
       self := m, cls := "Get", uses := [],
@@ -537,6 +754,7 @@ def plan (op : Op) (v : List (Nat × Option Body)) : Plan :=
         | .map _ _ _ kvs => if (kvGet k kvs).isSome then none else some .KeyError
         | _ => none,
       undef := noUndef,
+      sites := elemSites "_Del",
       apply := onMap (fun kvs => (kvs.filter (fun p => p.1 ≠ k), .unit)) }
   | .mmem m k => .call {
       self := m, cls := "Get", uses := [],
@@ -557,7 +775,7 @@ def plan (op : Op) (v : List (Nat × Option Body)) : Plan :=
   | .copy d c =>
     if viewLive v d then .undefined else
     match viewBody v c with
-    | some b => .alloc d b.typeName b [(c, "Assign")]
+    | some b => .alloc d b.typeName b [(c, "Assign")] .standard
     | none => .refuse .ValueError
   | .concat c c2 =>
     if c = c2 then .undefined else
@@ -566,12 +784,14 @@ def plan (op : Op) (v : List (Nat × Option Body)) : Plan :=
     | some (.seq _ ty2 ys) => .call {
         self := c, cls := "Concat", uses := [(c2, "Iter"), (c2, "Len")],
         guard := seqGuard (fun _ ty _ => if ty = ty2 then none else some .ClassError), hard := noGuard, undef := noUndef,
+        sites := elemSites "_Assign",
         apply := onSeq (fun xs => (xs ++ ys, .unit)) }
     | some (.val (.str t)) => .call {
         self := c, cls := "Concat", uses := [(c2, "C_Str")],
         guard := fun b => match b with
           | .val (.str _) => none
           | _ => some .ClassError,
+        sites := fun _ => [("String_Concat", .self)],
         hard := noGuard,
         undef := fun b => match b with
           | .val (.str s) => decide (strLen s + strLen t > strCap)
@@ -583,6 +803,7 @@ def plan (op : Op) (v : List (Nat × Option Body)) : Plan :=
   | .resize c n => .call {
       self := c, cls := "Resize", uses := [], guard := seqGuard (fun _ _ _ => none), hard := noGuard,
       undef := fun b => decide (n < 0) || decide (n > (seqLen b : Int)),
+      sites := elemSites "_Del",
       apply := onSeq (fun xs => (xs.take n.toNat, .unit)) }
   | .eq a b | .cmp a b =>
     match viewBody v b with
@@ -611,10 +832,49 @@ def plan (op : Op) (v : List (Nat × Option Body)) : Plan :=
       guard := fun b => match b with
         | .val u => if u.ty = w.ty then none else some .TypeError
         | _ => some .TypeError,
+      sites := fun _ => [(w.ty.name ++ "_Assign", .self)],
       hard := noGuard, undef := noUndef,
       apply := fun b => match b with
         | .val _ => (.val w, .unit)
         | b => (b, .unit) }
+  | .ed c sel e => .call {
+      self := c,
+      cls := (match sel with
+        | .self => e.cls
+        | .at _ | .val _ => "Get"
+        | .it _ | .key _ => "Iter"),
+      uses := [],
+      guard := fun b =>
+        let base : Option Exc := match sel, b with
+          | .self, .val _ => none
+          | .at i, .seq _ _ xs => if idxBad xs.length i then some .IndexOutOfBoundsError else none
+          | .it _, .seq _ _ _ => none
+          | .val k, .map _ kt _ _ | .key k, .map _ kt _ _ => if k.ty = kt then none else some .ClassError
+          | _, _ => some .ClassError
+        match base, selTarget sel b with
+        | some e', _ => some e'
+        | none, some x => if e.typeOk x then none else some .ClassError    -- no such method on the element / argument of the wrong type
+        | none, none => none,
+      -- the element reached through get / iteration is an object of its own: type_of, Type_Instance and the method check on it
+      inner := fun b => match sel, selTarget sel b with
+        | .self, _ => []
+        | _, some x => [(x.ty.name, e.cls)]
+        | _, none => [],
+      sites := fun b => match selTarget sel b with
+        | some x => (e.fns x.ty.name).map (fun f => (f, selWhere sel b))
+        | none => [],
+      hard := fun b => match sel, selTarget sel b with
+        | .val _, none => some .KeyError               -- Table_Get / Tree_Get of an absent key
+        | _, some x => e.hard x
+        | _, none => none,
+      undef := fun b => match sel, selTarget sel b with
+        | .val _, none => false
+        | _, none => true                               -- iteration that never reaches the element: nothing to edit
+        | _, some x => e.undef x ||
+            (match sel with | .key _ => !(e.run x == x) | _ => false),   -- a key may only be rewritten with its own value
+      apply := fun b => match selTarget sel b with
+        | some x => (selPut sel b (e.run x), .unit)
+        | none => (b, .unit) }
   | .exc k => .pure (.exc (excName k))
   | .nest k1 k2 => .pure (.nest (if excName k1 = excName k2 then "inner" else "outer") (excName k1))
   | .hash x => .call {
@@ -669,7 +929,33 @@ def plan (op : Op) (v : List (Nat × Option Body)) : Plan :=
 def setBody (heap : List Obj) (i : Nat) (b : Body) : List Obj :=
   heap.map (fun o => if o.id == i then { o with body := b } else o)
 
-/-- a method call: dispatch on the receiver, on the arguments, then guard / hard errors / effect -/
+/-- the class found in the header of the object a guarded function runs on.  The field `header(self)->alloc` exists only
+    when CELLO_ALLOC_CHECK is on; without it nothing is read and the class is the one `alloc_by` would have stored. -/
+def siteClass (o : Obj) : Where → AllocClass
+  | .self => o.hdr.alloc.getD heapClass
+  | .elem fn k => stampOf fn k
+
+/-- the first generated `CELLO_ALLOC_CHECK` guard that fires along the functions the call runs -/
+def sitesFire (o : Obj) : List (String × Where) → Option Exc
+  | [] => none
+  | (fn, w) :: rest =>
+    match allocGuardFires fn (siteClass o w) with
+    | some e => some e
+    | none => sitesFire o rest
+
+/-- lookups on embedded elements: `type_of` (their header carries the magic number of this build: the container's own
+    `header_init` wrote it), `Type_Instance` through the cache, method check.  `true`: a class is missing (ClassError). -/
+def innerAll (cfg : Cfg) : St → List (String × String) → St × Bool
+  | s, [] => (s, false)
+  | s, (ty, cls) :: rest =>
+    let r := typeInstance cfg s.memo ty cls
+    let s' := { s with memo := r.1 }
+    match r.2 with
+    | none => (s', true)
+    | some _ => innerAll cfg s' rest
+
+/-- a method call: dispatch on the receiver, on the arguments, the guards (bounds, element lookups, allocation class), then
+    hard errors / effect -/
 def runCall (cfg : Cfg) (c : Call) (s : St) : St × Outcome Out :=
   match dispatch cfg s c.self c.cls with
   | (s1, .ok o) =>
@@ -678,33 +964,61 @@ def runCall (cfg : Cfg) (c : Call) (s : St) : St × Outcome Out :=
       match c.guard o.body with
       | some e => (s2, refuse cfg e)
       | none =>
-        if c.undef o.body then (s2, .ub) else
-        match c.hard o.body with
-        | some e => (s2, .raised e)
-        | none =>
-          let r := c.apply o.body
-          ({ s2 with heap := setBody s2.heap o.id r.1 }, .ok r.2)
+        match innerAll cfg s2 (c.inner o.body) with
+        | (s3, true) => (s3, refuse cfg .ClassError)
+        | (s3, false) =>
+          match sitesFire o (c.sites o.body) with
+          | some e => (s3, refuse cfg e)          -- inside `#if CELLO_ALLOC_CHECK == 1`
+          | none =>
+            if c.undef o.body then (s3, .ub) else
+            match c.hard o.body with
+            | some e => (s3, .raised e)
+            | none =>
+              let r := c.apply o.body
+              ({ s3 with heap := setBody s3.heap o.id r.1 }, .ok r.2)
     | (s2, .raised e) => (s2, .raised e)
     | (s2, .ub) => (s2, .ub)
   | (s1, .raised e) => (s1, .raised e)
   | (s1, .ub) => (s1, .ub)
 
-/-- `new` / `copy`: `alloc_by` + construct/assign; the new object is bound to handle `d` -/
-def runAlloc (cfg : Cfg) (d : Nat) (ty : String) (b : Body) (uses : List (Nat × String)) (s : St) : St × Outcome Out :=
+/-- `GC_Set` with the root flag: registered, never swept -/
+def gcSetRoot (s : St) (i : Nat) : St := gcSet { s with roots := i :: s.roots } i
+
+/-- the `switch (method)` of `alloc_by`: `set(current(GC), self, $I(0))` / nothing / `set(current(GC), self, $I(1))`, all of it
+    `#ifndef CELLO_NGC` -/
+def register (cfg : Cfg) (mode : AMode) (s : St) (i : Nat) : St :=
+  if cfg.gc then
+    (match mode with
+     | .standard => gcSet s i
+     | .raw => s
+     | .root => gcSetRoot s i)
+  else s
+
+/-- `new` / `new_raw` / `new_root` / `copy`: `alloc_by` + construct/assign; the new object is bound to handle `d`.  The
+    constructor assigns into the new object and into the elements it embeds: the guards of those functions see the class
+    `alloc_by` stamps, and the classes the container stamps. -/
+def runAlloc (cfg : Cfg) (d : Nat) (ty : String) (b : Body) (uses : List (Nat × String)) (mode : AMode) (s : St) : St × Outcome Out :=
   match dispatchAll cfg s uses with
   | (s1, .ok ()) =>
-    let o : Obj := { id := s1.next, hdr := headerInit cfg ty .heap, body := b }
-    let s2 := { s1 with next := s1.next + 1, heap := o :: s1.heap, live := (d, o.id) :: s1.live }
-    (if cfg.gc then gcSet s2 o.id else s2, .ok .unit)
+    let o : Obj := { id := s1.next, hdr := headerInit cfg ty heapClass, body := b }
+    match sitesFire o ((ty ++ "_Assign", .self) :: elemSites "_Assign" b) with
+    | some e => (s1, refuse cfg e)
+    | none =>
+      let s2 := { s1 with next := s1.next + 1, heap := o :: s1.heap, live := (d, o.id) :: s1.live }
+      (register cfg mode s2 o.id, .ok .unit)
   | (s1, .raised e) => (s1, .raised e)
   | (s1, .ub) => (s1, .ub)
 
-/-- `del(x)`: `del_by` → `rem(current(GC), x)` or `dealloc(destruct(x))`; the handle is cleared -/
+/-- `del(x)` / `del_raw(x)` / `del_root(x)`: `rem(current(GC), x)` or `dealloc(destruct(x))`; the destructor of the object
+    and of the elements it embeds run, then `dealloc`: their guards see the header classes.  The handle is cleared. -/
 def runDel (cfg : Cfg) (x : Nat) (s : St) : St × Outcome Out :=
   match dispatchGen false cfg s x "New" with       -- `destruct`: `instance(self, New)`, optional
   | (s1, .ok o) =>
     match dispatchGen false cfg s1 x "Alloc" with  -- `dealloc`: `instance(self, Alloc)`, optional
-    | (s2, .ok _) => ({ freeObj cfg s2 o.id with live := s2.live.filter (fun p => !(p.1 == x)) }, .ok .unit)
+    | (s2, .ok _) =>
+      match sitesFire o ((o.hdr.type ++ "_Del", .self) :: elemSites "_Del" o.body ++ [("dealloc", .self)]) with
+      | some e => (s2, refuse cfg e)
+      | none => ({ freeObj cfg s2 o.id with live := s2.live.filter (fun p => !(p.1 == x)) }, .ok .unit)
     | (s2, .raised e) => (s2, .raised e)
     | (s2, .ub) => (s2, .ub)
   | (s1, .raised e) => (s1, .raised e)
@@ -713,7 +1027,7 @@ def runDel (cfg : Cfg) (x : Nat) (s : St) : St × Outcome Out :=
 def step (cfg : Cfg) (op : Op) (s : St) : St × Outcome Out :=
   match plan op s.view with
   | .call c => runCall cfg c s
-  | .alloc d ty b uses => runAlloc cfg d ty b uses s
+  | .alloc d ty b uses mode => runAlloc cfg d ty b uses mode s
   | .del x => runDel cfg x s
   | .drop x => ({ s with live := s.live.filter (fun p => !(p.1 == x)) }, .ok .unit)
   | .collect => (if cfg.gc then collect s else s, .ok .silent)
